@@ -134,6 +134,7 @@ type bWorld struct {
 
 	clientsDone []bool
 	opsPerDID   int
+	label       string
 	kg          workload.KeyGen
 
 	rates     map[string]int
@@ -383,6 +384,17 @@ func runWorldB(rc *RunCtx, prop string) *RunResult {
 	w.writer.VerifSetTickers(w.monCh, w.toCh)
 
 	var hopts []dochandler.Option
+
+	// optional label / domain hints for unpublished (interim) documents
+	if T.Draw(4, "cfg.label") == 0 {
+		w.label = "lbl"
+		hopts = append(hopts, dochandler.WithLabel(w.label))
+
+		if T.Draw(2, "cfg.domain") == 0 {
+			hopts = append(hopts, dochandler.WithDomain("dom.example"))
+		}
+	}
+
 	if w.useUnpub {
 		hopts = append(hopts, dochandler.WithUnpublishedOperationStore(w.unpub, allTypes))
 	}
@@ -1916,8 +1928,17 @@ func (w *bWorld) externalChecks(d *bDID, st *refmodel.State) {
 		return s
 	}
 
-	a := norm(d.CreateResp, d.LongForm, did)
-	c := norm(short, d.LongForm, did)
+	// with a label configured, interim documents carry it in their DID strings
+	labelled := ""
+	labelledLong := ""
+
+	if w.label != "" {
+		labelled = bNS + ":" + w.label + ":" + d.Suffix
+		labelledLong = labelled + strings.TrimPrefix(d.LongForm, did)
+	}
+
+	a := norm(d.CreateResp, d.LongForm, did, labelled, labelledLong)
+	c := norm(short, d.LongForm, did, labelled, labelledLong)
 
 	if a != c {
 		w.fail("C20", "create/response-vs-short-form", fmt.Sprintf("did%d: the create response and the short-form resolution after anchoring differ beyond the DID string:\n create: %s\n short:  %s", d.Idx, a, c))
@@ -1926,7 +1947,7 @@ func (w *bWorld) externalChecks(d *bDID, st *refmodel.State) {
 	}
 
 	if d.LongResp != nil {
-		if b := norm(d.LongResp, d.LongForm, did); b != c {
+		if b := norm(d.LongResp, d.LongForm, did, labelled, labelledLong); b != c {
 			w.fail("C20", "create/long-form-vs-short-form", fmt.Sprintf("did%d: long-form resolution before anchoring and short-form resolution after anchoring differ beyond the DID string:\n long:  %s\n short: %s", d.Idx, b, c))
 
 			return
